@@ -79,6 +79,13 @@ pub const RULE_BODIES: &[&str] = &[
     "{h}(X, Z) <- r(X, Y), Z = Y + 1",
     "{h}(X, Z) <- r(X, Y), Z = Y * 2 - 1",
     "{h}(X, Z) <- r(X, Y), Z = (Y + 1) * 2",
+    // a parenthesised group as the RIGHT operand, same and different precedence levels
+    "{h}(X, Z) <- r(X, Y), Z = Y * (X % 2)",
+    "{h}(X, Z) <- r(X, Y), Z = Y * (X / 2)",
+    "{h}(X, Z) <- r(X, Y), Z = Y - (X - 1)",
+    "{h}(X, Z) <- r(X, Y), Z = Y - (X + 1)",
+    "{h}(X, Z) <- r(X, Y), Z = Y / (X * 2)",
+    "{h}(X, Z) <- r(X, Y), Z = (Y % 3) * 2 + X",
     "{h}(X, Y) <- r(X, Y), Y > -1",
     "{h}(X, Y) <- r(X, Y), X <= 2.0",
     "{h}(X, Y) <- r(X, Y), X < 2.5",
@@ -585,7 +592,8 @@ pub fn c17_history(seed: u64) -> Case {
     let mut rc = Rng::new(seed, P_CFG);
     let mut rw = Rng::new(seed, P_WORK);
     let mut mix = Mix::data_only();
-    let pools: [&[&str]; 3] = [&["default", "a", "ab"], &["default", "a", "a_b", "ab"], &["default", "x", "default2"]];
+    // the last pool holds names of directories the storage engine itself keeps under the data directory
+    let pools: [&[&str]; 4] = [&["default", "a", "ab"], &["default", "a", "a_b", "ab"], &["default", "x", "default2"], &["default", "persist", "metadata", "a"]];
     mix.kgs = rw.pick(&pools).iter().map(|s| s.to_string()).collect();
     // relation names with '_' so that "{kg}:{relation}" shard names of different graphs can map to
     // similar file names (graph a + relation b_r vs graph a_b + relation r)
